@@ -165,7 +165,7 @@ def onKey (s : St) (rest : String) : St := Id.run do
   let im := parseDump s.lastD
   if scratch != im.key then s := s.report "spec" "C04" "incremental-vs-scratch-key" s!"incremental={hex im.key} scratch={hex scratch}"
   if reload != im.key then s := s.report "spec" "C04,C07" "fen-reload-key" s!"incremental={hex im.key} reload={hex reload} fen=[{fen}]"
-  if s.mb.scratchKey.toNat != scratch then s := s.report "model" "C04" "scratch-key" s!"impl={hex scratch} model={hex64 s.mb.scratchKey}"
+  if s.mb.scratchKey.toNat != scratch then s := s.report "model" "C04,C05" "scratch-key" s!"impl={hex scratch} model={hex64 s.mb.scratchKey}"
   let specFen := String.ofList (Rules.render s.sp)
   if specFen != fen then s := s.report "spec" "C03" "fen-of-state" s!"impl=[{fen}] spec=[{specFen}]"
   match Board.fromFen? fen.toList with
@@ -235,6 +235,8 @@ def onPerturb (s : St) (rest : String) : St := Id.run do
   let acc := parseHex (t.getD 2 "0")
   if changed != total then
     s := s.report "spec" "C05" "perturbation-did-not-change-key" s!"total={total} changed={changed} unchanged=[{t.getD 3 ""}]"
+  if ((t.getD 3 "").splitOn "alias:").length > 1 then
+    s := s.report "spec" "C05" "two-changes-move-the-key-alike" s!"changing both gives the same key as neither: [{t.getD 3 ""}]"
   -- model side
   let b := s.mb
   let pa : Nat → Option Kind := fun i => b.pieceAt (Square.ofIdx i)
@@ -263,6 +265,13 @@ def onPerturb (s : St) (rest : String) : St := Id.run do
   if n != total || ch != changed || a.toNat != acc then
     s := s.report "model" "C05" "perturbation-keys" s!"impl=[{rest}] model=[{n} {ch} {hex64 a}]"
   return { s with stats := { s.stats with perturbed := s.stats.perturbed + 1, perturbations := s.stats.perturbations + total } }
+
+/-- `Y` line: evaluation of a live board (or of a copy of it with one kind substituted) vs a fresh load of the same position -/
+def onPurity (s : St) (rest : String) : St :=
+  let t := rest.splitOn " "
+  if t.getD 0 "" != t.getD 1 "" then
+    s.report "spec" "C17" "evaluation-depends-on-history" s!"live={t.getD 0 ""} fresh-load={t.getD 1 ""} at={t.getD 2 ""}"
+  else s
 
 /-- `H` line: the keys (among those seen in this game) that `position_reached` reports — public API only.
     Expected: exactly the keys of the earlier positions on the current path. -/
@@ -293,6 +302,7 @@ def step (s : St) (line : String) : St :=
   | "M" => onMove s rest
   | "U" => onUnmake s
   | "P" => onPerturb s rest
+  | "Y" => onPurity s rest
   | "H" => onReached s rest
   | _ => s
 
